@@ -214,6 +214,20 @@ func corpus() []Case {
 			w.mk("corpus-cycle", "p1/self"), w.mk("corpus-cycle", "p1/f"),
 			w.mk("corpus-cycle", "p1/free"), w.mk("corpus-cycle", "p1/free", "p1/f.fileset"))
 	}
+	{ // cycles that close through the OUTPUT FILE of a rule: r -> mid -> r.fileset (-> r), entered at
+		// every node of the cycle and after an acyclic leaf; a rule listing its own output
+		w := &ws{roots: []string{"p", "q"}}
+		w.src("p/a.txt")
+		w.add("p", fileSet("p", "leaf", []string{"p/a.txt"}, nil, nil))
+		w.add("p", fileSet("p", "r", nil, []string{"p/leaf", "q/mid"}, nil))
+		w.add("q", fileSet("q", "mid", []string{"p/r.fileset"}, nil, nil))
+		w.add("p", fileSet("p", "self", []string{"p/self.fileset"}, nil, nil))
+		w.add("q", bundle("q", "viaout", []string{"p/r.fileset"}, nil))
+		for _, ts := range [][]string{{"p/r"}, {"q/mid"}, {"p/r.fileset"}, {"p/leaf", "p/r"}, {"p/self"},
+			{"p/self.fileset"}, {"q/viaout"}, {"p/leaf"}, {"p/leaf", "q/viaout"}} {
+			cs = append(cs, w.mk("corpus-outcycle", ts...))
+		}
+	}
 	{ // a node finished through one path and met again through a cycle
 		w := &ws{roots: []string{"p0"}}
 		w.add("p0", bundle("p0", "a", []string{"p0/b", "p0/c"}, nil))
@@ -360,6 +374,129 @@ func exhaustive(k int, allTargets bool) []Case {
 		}
 	}
 	return cs
+}
+
+// exhaustiveOut: every graph on two file sets AND their two output files:
+// each rule may include either rule (rule -> rule edge) and list either
+// output file (rule -> output edge; the output's own edge leads to its
+// rule), so cycles close through output files, through rules, or both.
+// Requested: a rule, the other rule's output, both rules (and, with
+// allTargets, every non-empty subset of the four nodes).
+func exhaustiveOut(allTargets bool) []Case {
+	dirs := []string{"p0", "p1"}
+	nodes := []string{"p0/n0", "p1/n1", "p0/n0.fileset", "p1/n1.fileset"}
+	var cs []Case
+	for g := 0; g < 256; g++ {
+		w := &ws{roots: []string{"p0", "p1"}}
+		for i := 0; i < 2; i++ {
+			var files, inc []string
+			for j := 0; j < 4; j++ {
+				if g&(1<<(i*4+j)) == 0 {
+					continue
+				}
+				if j < 2 {
+					inc = append(inc, nodes[j])
+				} else {
+					files = append(files, nodes[j])
+				}
+			}
+			w.add(dirs[i], fileSet(dirs[i], fmt.Sprintf("n%d", i), files, inc, nil))
+		}
+		if allTargets {
+			for t := 1; t < 16; t++ {
+				var ts []string
+				for j := 0; j < 4; j++ {
+					if t&(1<<j) != 0 {
+						ts = append(ts, nodes[j])
+					}
+				}
+				cs = append(cs, w.mk("exh-out", ts...))
+			}
+			continue
+		}
+		cs = append(cs, w.mk("exh-out", nodes[0]), w.mk("exh-out", nodes[3]), w.mk("exh-out", nodes[1], nodes[0]))
+	}
+	return cs
+}
+
+// seqCorpus: sequences of Build calls on ONE Builder over one workspace
+// that has a sound part, a dangling dependency and cycles: good targets,
+// targets over the dangling dependency, over a cycle, the same again, other
+// targets, in several orders.  Every call is judged on its own (AlwaysRebuild,
+// so that every call executes all it reaches).
+func seqCorpus() []Case {
+	w := &ws{roots: []string{"p0", "p1"}}
+	w.src("p0/s.txt")
+	w.add("p0", bundle("p0", "b", nil, nil))
+	w.add("p0", bundle("p0", "a", []string{"p0/b"}, nil))
+	w.add("p0", bundle("p0", "d", []string{"p0/b", "p0/nothing"}, nil)) // dangling, after a sound dependency
+	w.add("p0", bundle("p0", "top", []string{"p0/a", "p0/d"}, nil))
+	w.add("p1", bundle("p1", "x", []string{"p0/a", "p1/y"}, nil)) // cycle x -> y -> x, after a sound dependency
+	w.add("p1", bundle("p1", "y", []string{"p1/x"}, nil))
+	w.add("p1", bundle("p1", "mix", []string{"p0/b", "p1/x"}, nil))
+	w.add("p1", fileSet("p1", "f", []string{"p0/s.txt"}, nil, nil))
+	w.add("p1", fileSet("p1", "g", []string{"p1/f.fileset"}, nil, nil))
+	w.add("p1", fileSet("p1", "oc", []string{"p1/oc2.fileset"}, nil, nil)) // cycle through output files
+	w.add("p1", fileSet("p1", "oc2", []string{"p1/oc.fileset"}, nil, nil))
+	mk := func(first []string, seq ...[]string) Case {
+		c := w.mk("corpus-seq", first...)
+		c.Seq = seq
+		return c
+	}
+	l := func(xs ...string) []string { return xs }
+	return []Case{
+		mk(l("p0/a"), l("p0/d"), l("p0/a"), l("p0/d"), l("p0/top"), l("p0/b")),
+		mk(l("p0/d"), l("p0/top"), l("p0/a"), l("p0/d")),
+		mk(l("p0/top"), l("p0/a"), l("p0/top"), l("p0/d", "p0/a")),
+		mk(l("p1/x"), l("p1/mix"), l("p0/b"), l("p1/y"), l("p1/x")),
+		mk(l("p1/mix"), l("p1/x"), l("p0/a", "p1/mix")),
+		mk(l("p1/g"), l("p1/f.fileset"), l("p0/nowhere"), l("p1/g"), l("p1/oc"), l("p1/g"), l("p1/oc2.fileset"), l("p1/oc")),
+		mk(l("p0/nowhere"), l("p0/a"), l("p0/nowhere", "p0/a"), l("p0/a", "p0/nowhere")),
+		mk(l("p0/a", "p1/g"), l("p0/d"), l("p1/x"), l("p1/oc"), l("p0/a", "p1/g")),
+	}
+}
+
+// seqCase: a random workspace (often with a dangling dependency or a cycle)
+// and 2-4 further target lists built on the same Builder.
+func seqCase(r *hx.Rng) Case {
+	fl := flaws{}
+	switch r.Intn(4) {
+	case 0:
+		fl.cycles = true
+	case 1:
+		fl.dangling = true
+	case 2:
+		fl.cycles, fl.dangling = true, true
+	}
+	c := randomCase(r, "seq", 3+r.Intn(8), fl)
+	var names []string
+	for _, f := range c.Files {
+		for _, d := range f.Decls {
+			if d.RName != "" {
+				names = append(names, d.RName)
+			}
+			names = append(names, d.ROuts...)
+		}
+	}
+	if len(names) == 0 {
+		return c
+	}
+	n := 2 + r.Intn(3)
+	for i := 0; i < n; i++ {
+		var ts []string
+		switch r.Intn(6) {
+		case 0: // the first targets again
+			ts = append(ts, c.Targets...)
+		case 1: // a name nobody declares
+			ts = append(ts, "p0/nowhere")
+		default:
+			for j := 0; j < 1+r.Intn(2); j++ {
+				ts = append(ts, names[r.Intn(len(names))])
+			}
+		}
+		c.Seq = append(c.Seq, ts)
+	}
+	return c
 }
 
 // ------------------------------------------------------------ random graphs
@@ -697,6 +834,7 @@ func genCases(seed uint64, thorough bool) []Case {
 	cs = append(cs, exhaustive(1, true)...)
 	cs = append(cs, exhaustive(2, true)...)
 	cs = append(cs, exhaustive(3, thorough)...)
+	cs = append(cs, exhaustiveOut(thorough)...)
 	nrand, nperm, nmal := 500, 12, 40
 	if thorough {
 		nrand, nperm, nmal = 6000, 120, 400
@@ -734,11 +872,22 @@ func genCases(seed uint64, thorough bool) []Case {
 	for i := 0; i < nmal; i++ {
 		cs = append(cs, malformed(r))
 	}
+	cs = append(cs, seqCorpus()...)
+	nseq := 120
+	if thorough {
+		nseq = 1500
+	}
+	for i := 0; i < nseq; i++ {
+		cs = append(cs, seqCase(r))
+	}
 	for i := range cs {
 		cs[i].I = i
 		// every other case is built with AlwaysRebuild: only the per-build
 		// memo then keeps a rule from executing twice
 		cs[i].Always = i%2 == 1
+		if len(cs[i].Seq) > 0 { // every call of a sequence executes all it reaches
+			cs[i].Always = true
+		}
 	}
 	return cs
 }
